@@ -293,14 +293,38 @@ fn nonterminal(p: &Pos) -> bool {
 /// Positions whose depth-1 search already runs to tens of thousands of nodes (many queens facing
 /// each other: the capture search explodes), so that a stop or an expired limit can be seen before
 /// the first root move has been scored.
-fn quiescence_heavy(rng: &mut Rng) -> Option<Pos> {
-    for _ in 0..200 {
+/// Number of stop-flag polls a depth-1 search of `p` makes before poll `cap` (workload selection only:
+/// how expensive the first iteration is; never part of a verdict).
+pub fn depth1_polls(p: &Pos, cap: u64) -> u64 {
+    let Ok(g) = Game::from_fen(&p.to_fen(EpConv::Always)) else { return 0 };
+    let mut ps = PersistentState::new(1);
+    h1::arm(cap);
+    let options = EngineOptions::default();
+    let r = guarded(|| {
+        let (mut ts, _c) = TimeStrategy::new(&g, &TimeControl::Infinite, &options);
+        let restrictions = SearchRestrictions { depth: Some(1) };
+        let mut rec = Recorder { infos: vec![] };
+        let _ = search::search(&g, &mut ps, &mut ts, &restrictions, &options, &mut rec);
+    });
+    let polls = h1::observed().0;
+    h1::arm(0);
+    if r.is_err() {
+        return 0;
+    }
+    polls
+}
+
+pub fn quiescence_heavy(rng: &mut Rng) -> Option<Pos> {
+    for _ in 0..400 {
         let c = SynthCfg { max_extra: 30, wild: true, focus: true, castling: false };
         let Some(p) = synth(rng, &c) else { continue };
         let queens = p.b.iter().flatten().filter(|pc| pc.k == Kind::Q).count();
         let wq = p.b.iter().flatten().filter(|pc| pc.k == Kind::Q && pc.c == Color::W).count();
-        if queens >= 8 && wq >= 3 && queens - wq >= 3 && !p.legal_moves().is_empty() {
-            return Some(p);
+        if queens >= 8 && wq >= 3 && queens - wq >= 3 && !p.in_check(p.stm) {
+            let legal = p.legal_moves();
+            if legal.iter().filter(|m| m.capture).count() >= 8 {
+                return Some(p);
+            }
         }
     }
     None
